@@ -57,6 +57,8 @@ func main() {
 	}
 	if *only == "" || *only == "e2e" {
 		runE2E(r, *ne)
+		// a slice of the C17 reader-resume family (the whole family: -only readercut, checks/c02.py reader_cut_cases)
+		runE2EReaderCut(rand.New(rand.NewSource(*seed+13)), 75)
 	}
 	if *only == "" || *only == "l1" || *only == "rd" {
 		nr := 150
